@@ -120,4 +120,15 @@ CHECKS = {
 }
 
 _pending = "check not built yet in this session (work in progress, see DESIGN.md section 8)"
+CHECKS["C20"] = dict(
+    text="Admission.tla holds the decision tables: content detection independent of ZIP member order and unreferenced decoy parts, "
+         "admission by own extension in any letter case, refusal under another supported extension, and the EPUB DRM table (rights "
+         "file; spine documents encrypted with a non-obfuscation algorithm refused; obfuscated fonts only opens; everything else "
+         "unspecified). TLC enumerates every row (3780), each is materialised as a minimal valid document and offered to "
+         "format.DetectFromReader and tabula.Open(..).Text(), and every observation is validated by AdmissionTrace.tla.",
+    design_ref="4.20",
+    note=TB + " The specification is a declarative decision table that TLC enumerates; the minimal documents of harness/cmd/driver/c20.go are the trusted inputs.",
+    technique="TLA+ decision tables enumerated by TLC, materialised-document replay, trace validation of admissions",
+)
+
 NOT_APPLICABLE = {("C%02d" % i): _pending for i in range(1, 21)}
